@@ -236,6 +236,15 @@ func c13EMakeFile(path string, lay c13Layout, names []string, sizes []uint64, bu
 	if len(syms) < 2 {
 		return c13EFile{}, false
 	}
+	// the functions must be identifiable: no other PT_LOAD header's file range [Off, Off+Memsz)
+	// may contain their file offsets (otherwise an error is the allowed answer for the mapping)
+	flo, fhi := text.Off+(syms[0].addr-text.Vaddr), text.Off+(a-text.Vaddr)
+	for i := range lay.progs {
+		q := &lay.progs[i]
+		if q != text && q.Type == elf.PT_LOAD && q.Off < fhi && flo < q.Off+q.Memsz {
+			return c13EFile{}, false
+		}
+	}
 	if data != nil && data.Filesz >= 16 {
 		syms = append(syms, c13ESym{data.Vaddr + 8, 8, "datum_" + names[0], true})
 	}
@@ -280,7 +289,7 @@ func (f c13EFile) mappingOf(a, bias uint64) (start, limit, offset uint64, seg el
 	return 0, 0, 0, elf.ProgHeader{}
 }
 
-func (w *c13EWorld) term(mode, format string) Term {
+func (w *c13EWorld) term(mode, format string, extra []string) Term {
 	var fts []Term
 	for _, f := range w.files {
 		var ss []Term
@@ -312,7 +321,7 @@ func (w *c13EWorld) term(mode, format string) Term {
 		}
 		pts = append(pts, L(Z(p.scale), L(ms...), L(ss...)))
 	}
-	return L(S("e2e"), L(fts...), L(pts...), S(mode), S(format))
+	return L(S("e2e"), L(fts...), L(pts...), S(mode), S(format), Ss(extra))
 }
 
 // profile files on disk, one per process
@@ -529,7 +538,7 @@ func (w *c13EWorld) parseWebTop(html string) c13EAgg {
 const c13ECommon = "-nodefraction=0 -edgefraction=0 -nodecount=100000"
 
 // c13ERun pushes the world through one entry point and returns the parsed observable.
-func (w *c13EWorld) run(mode, format string) (obs Term) {
+func (w *c13EWorld) run(mode, format string, extra []string) (obs Term) {
 	defer func() {
 		if r := recover(); r != nil {
 			obs = L(S("panic"), S(fmt.Sprint(r)))
@@ -553,7 +562,7 @@ func (w *c13EWorld) run(mode, format string) (obs Term) {
 			os.Unsetenv("PPROF_BINARY_PATH")
 		}
 	}()
-	args := append([]string{"-symbolize=" + mode}, strings.Fields(c13ECommon)...)
+	args := append(append([]string{"-symbolize=" + mode}, strings.Fields(c13ECommon)...), extra...)
 	var srcs []string
 	for i, p := range w.profiles {
 		if p.scale < 0 {
